@@ -101,6 +101,8 @@ pub struct FragReader {
     pub calls: usize,
     pub calls_at_end: usize,
     pub faults_returned: usize,
+    /// hard failures (an error other than Interrupted, or a premature end) returned since the last byte was delivered
+    pub hard_failures_in_a_row: usize,
     pub log: Vec<ReadEv>,
 }
 
@@ -115,6 +117,7 @@ impl FragReader {
             calls: 0,
             calls_at_end: 0,
             faults_returned: 0,
+            hard_failures_in_a_row: 0,
             log: vec![],
         }
     }
@@ -165,6 +168,17 @@ impl Read for FragReader {
         };
         if fault.is_some() {
             self.faults_returned += 1;
+        }
+        match (&fault, &r) {
+            (Some(ReadFault::Fail(_)) | Some(ReadFault::Eof), _) => {
+                // a caller that asks again and again after a hard failure, without ever getting a byte, is spinning on it
+                self.hard_failures_in_a_row += 1;
+                if self.hard_failures_in_a_row > 300_000 {
+                    panic!("the reader failed hard 300 000 times in a row and was asked again each time (the caller spins on a failing stream instead of giving up)");
+                }
+            }
+            (_, Ok(n)) if *n > 0 => self.hard_failures_in_a_row = 0,
+            _ => {}
         }
         self.log.push(ReadEv {
             at,
@@ -244,11 +258,13 @@ impl Write for FragWriter {
         let t0 = Instant::now();
         let act = self.script.get(self.calls).copied().unwrap_or(self.default);
         self.calls += 1;
-        if matches!(act, WriteAct::Zero | WriteAct::Interrupted) {
+        if matches!(act, WriteAct::Zero | WriteAct::Interrupted | WriteAct::Fail(_)) {
             self.fruitless_calls += 1;
             if self.fruitless_calls > 100_000 {
-                panic!("the sink was offered data 100 000 times without accepting any (the writer spins instead of giving up)");
+                panic!("the sink was offered data 100 000 times in a row without accepting any (the writer spins instead of giving up)");
             }
+        } else {
+            self.fruitless_calls = 0;
         }
         let r = match act {
             WriteAct::Accept(k) => {
